@@ -80,6 +80,8 @@ type mkOp struct {
 	Iters []mkIter  `json:"iters"`
 	Shape *mkShape  `json:"shape"`
 	Depth int       `json:"depth"`
+	Fork  bool      `json:"fork"`  // a second object of an Overlay.Copy is alive
+	FView [][2]bstr `json:"fview"` // its view
 }
 
 type mkBehaviour struct {
@@ -188,6 +190,9 @@ type mkRun struct {
 	ndb     dbapi.NodeDB
 	tree    mkvs.Tree
 	ovl     []mkvs.OverlayTree
+	fork    mkvs.OverlayTree // the other object of an ofork (see Mkvs.tla)
+	forkD   int              // overlay depth at which it was taken
+	nfork   int
 	version uint64
 	root    node.Root
 	hasRoot bool
@@ -230,6 +235,10 @@ func (r *mkRun) top() mkvs.KeyValueTree {
 }
 
 func (r *mkRun) close() {
+	if r.fork != nil {
+		r.fork.Close()
+		r.fork = nil
+	}
 	if r.tree != nil {
 		r.tree.Close()
 	}
@@ -255,7 +264,34 @@ func lookupView(view [][2]bstr, k []byte) ([]byte, bool) {
 }
 
 func (r *mkRun) checkReads(op *mkOp) *mkFail {
-	t := r.top()
+	if f := r.checkReadsOn(r.top(), op); f != nil {
+		return f
+	}
+	if op.Fork != (r.fork != nil) {
+		return failf("harness", "fork alive: harness %v, model %v", r.fork != nil, op.Fork)
+	}
+	if r.fork != nil {
+		// the fork answers as its own ordered map: Get of every key of the universe and the full iteration
+		fop := mkOp{View: op.FView}
+		for _, it := range op.Iters {
+			fop.Iters = append(fop.Iters, mkIter{Seek: it.Seek, Items: nil})
+		}
+		if f := r.checkReadsOn(r.fork, &fop); f != nil {
+			f.Msg = "fork (other object of Overlay.Copy): " + f.Msg
+			return f
+		}
+	}
+	return nil
+}
+
+func (r *mkRun) dropFork() {
+	if r.fork != nil && len(r.ovl) == r.forkD {
+		r.fork.Close()
+		r.fork = nil
+	}
+}
+
+func (r *mkRun) checkReadsOn(t mkvs.KeyValueTree, op *mkOp) *mkFail {
 	// Get of every key of the universe.
 	for _, it := range op.Iters {
 		k := it.Seek
@@ -270,6 +306,9 @@ func (r *mkRun) checkReads(op *mkOp) *mkFail {
 	}
 	// Seek + Next from every seek position.
 	for _, itx := range op.Iters {
+		if itx.Items == nil && op.A == "" {
+			continue // fork: Get + full iteration only
+		}
 		it := t.NewIterator(r.ctx)
 		it.Seek(node.Key(itx.Seek))
 		for i, p := range itx.Items {
@@ -368,6 +407,7 @@ func (r *mkRun) apply(op *mkOp, rec *mkRecorder) *mkFail {
 	case "onew":
 		r.ovl = append(r.ovl, mkvs.NewOverlay(t))
 	case "ocommit":
+		r.dropFork()
 		o := r.ovl[len(r.ovl)-1]
 		if _, err := o.Commit(r.ctx); err != nil {
 			return failf("error", "Overlay.Commit: %v", err)
@@ -375,8 +415,32 @@ func (r *mkRun) apply(op *mkOp, rec *mkRecorder) *mkFail {
 		o.Close()
 		r.ovl = r.ovl[:len(r.ovl)-1]
 	case "oclose":
+		r.dropFork()
 		r.ovl[len(r.ovl)-1].Close()
 		r.ovl = r.ovl[:len(r.ovl)-1]
+	case "ofork":
+		// both objects stay alive; in turn the stack continues on the copy or on the original
+		o := r.ovl[len(r.ovl)-1]
+		c := o.Copy(nil)
+		r.nfork++
+		if r.nfork%2 == 1 {
+			r.ovl[len(r.ovl)-1], r.fork = c, o
+		} else {
+			r.fork = c
+		}
+		r.forkD = len(r.ovl)
+	case "fins":
+		v := []byte(op.V)
+		if v == nil {
+			v = []byte{}
+		}
+		if err := r.fork.Insert(r.ctx, op.K, v); err != nil {
+			return failf("error", "fork Insert: %v", err)
+		}
+	case "frem":
+		if err := r.fork.Remove(r.ctx, op.K); err != nil {
+			return failf("error", "fork Remove: %v", err)
+		}
 	case "ocopy":
 		o := r.ovl[len(r.ovl)-1]
 		c := o.Copy(nil)
